@@ -1,5 +1,6 @@
 import PegVerif.Proofs.DeclProofs
 import PegVerif.Proofs.BuildProofs
+import PegVerif.Proofs.NonVacuity
 /-
   C16 – code generation is deterministic and identical through every integration route.
   The model is a function, so determinism of the *model* is trivial; the content here is that the
@@ -28,8 +29,66 @@ theorem C16_declarations_in_rule_order (kws : List String) (g : Grammar) (st : S
 theorem C16_buildscript_route (k : Build.Consts) (grammar pfx code : List UInt8) :
     Build.output k grammar pfx code = Build.fullHeader k grammar pfx ++ Build.str "\n" ++ code := rfl
 
-/-- the header is a function of the grammar text (and the build constants) only -/
-theorem C16_header_function (k : Build.Consts) (g g' : List UInt8) (h : g = g') :
-    Build.sourceHeader k g = Build.sourceHeader k g' := by rw [h]
+/-- the header depends on the grammar text only through its CRC-32 (and on the build constants) … -/
+theorem C16_header_function (k : Build.Consts) (g g' : List UInt8) (h : Build.crc32 g = Build.crc32 g') :
+    Build.sourceHeader k g = Build.sourceHeader k g' := by
+  unfold Build.sourceHeader; rw [h]
+
+/-- … and it determines that CRC: two grammar texts get the same header exactly when their CRC-32 agree -/
+theorem C16_header_determines_crc (k : Build.Consts) (g g' : List UInt8)
+    (h : Build.sourceHeader k g = Build.sourceHeader k g') : Build.crc32 g = Build.crc32 g' := by
+  unfold Build.sourceHeader at h
+  simp only [List.append_assoc] at h
+  have h1 := List.append_cancel_left h
+  have h2 := List.append_cancel_left h1
+  have h3 := List.append_cancel_left h2
+  have h4 := List.append_cancel_left h3
+  have h5 := List.append_cancel_left h4
+  have h6 := List.append_cancel_left h5
+  have := (List.append_inj h6 (by simp [Peg.hex8_length])).1
+  exact Peg.hex8_inj this
+
+/-! ## non-vacuity (BEGIN) -/
+namespace C16_nv
+open Peg.NV
+
+/-! `C16_types_sorted`: `R = { v:Y | v:X | v:*Y };` – the types of `v` are met in the order `Y`, `X`, `Y` (boxed);
+    the descriptor lists them sorted, once, with the `boxed` marks or-ed -/
+def rT : Rule := ⟨[], "R",
+  .choice [.seq [.closure (.choice [.seq [fld "v" "Y"], .seq [fld "v" "X"], .seq [.field (some (.ident "v")) true "Y"]]) false]]⟩
+def envT : Env := { g := ⟨[.rule rT]⟩, settings := {}, hooks := default, nf := 10 }
+theorem hget : getFields envT.g envT.nf rT.definition = .ok (ownFields envT rT.definition) := getFields_ok_of (by decide +kernel)
+example : ownFields envT rT.definition = [⟨"v", [("X", false), ("Y", true)], .multiple⟩] := by decide +kernel
+example : TypesSorted (ownFields envT rT.definition) := C16_types_sorted hget
+
+/-! `C16_type_set_order_independent`: three types inserted into a two-element sorted set in two different orders -/
+def l0 : List (String × Bool) := [("B", false), ("D", false)]
+def r1 : List (String × Bool) := [("C", false), ("A", true), ("B", true)]
+def r2 : List (String × Bool) := [("B", true), ("C", false), ("A", true)]
+theorem l0_sorted : SortedKeys l0 := by unfold SortedKeys; decide +kernel
+theorem r_perm : r1.Perm r2 := by decide
+example : combineTypes l0 r1 = combineTypes l0 r2 := C16_type_set_order_independent l0_sorted r_perm
+example : combineTypes l0 r1 = [("A", true), ("B", true), ("C", false), ("D", false)] := by decide +kernel
+
+/-! `C16_declarations_in_rule_order` on the running example (three rules, three declarations in that order) -/
+example : decls Extracted.rustKeywords env0.g {} 10 = env0.g.rules.flatMap (entryDecls Extracted.rustKeywords env0.g {} 10) :=
+  C16_declarations_in_rule_order _ _ _ _
+example : decls Extracted.rustKeywords env0.g {} 10 =
+    ["#[derive(Debug,Clone,)]pubstructS{pubfirst:Option<Num>,pubrest:Vec<Num>,pubword:Option<Word>,}",
+     "pubtypeNum=String;", "pubtypeWord=String;"] := by decide +kernel
+
+/-! the build-script route on concrete bytes: grammar `A='a';`, prefix `//p\n`, code `fn x(){}` -/
+def k0 : Build.Consts := ⟨Build.str "0.7.0", Build.str "2024"⟩
+def gtxt : List UInt8 := Build.str "A='a';"
+example : Build.output k0 gtxt (Build.str "//p\n") (Build.str "fn x(){}") =
+    Build.fullHeader k0 gtxt (Build.str "//p\n") ++ Build.str "\n" ++ Build.str "fn x(){}" :=
+  C16_buildscript_route k0 gtxt _ _
+/-- the header contains the CRC of the grammar text; a different text gives a different header -/
+example : Build.hex8 (Build.crc32 gtxt) ≠ Build.hex8 (Build.crc32 (Build.str "A='b';")) ∧
+    Build.sourceHeader k0 gtxt ≠ Build.sourceHeader k0 (Build.str "A='b';") := by decide +kernel
+example : Build.sourceHeader k0 gtxt = Build.sourceHeader k0 gtxt := C16_header_function k0 gtxt gtxt rfl
+
+end C16_nv
+/-! ## non-vacuity (END) -/
 
 end Peg.Props
